@@ -42,6 +42,11 @@ class UndefinedComparison(ValueError):
     pass
 
 
+def _quote(value: str) -> str:
+    """Quote a marker literal; a literal containing `"` must be written in single quotes."""
+    return f"'{value}'" if '"' in value else f'"{value}"'
+
+
 class SingleMarker(BaseMarker):
     name: str
     _VERSION_LIKE_MARKER_NAME: t.ClassVar[set[str]] = {
@@ -166,8 +171,8 @@ class MarkerExpression(SingleMarker):
 
     def __str__(self) -> str:
         if self.reversed:
-            return f'"{self.value}" {get_reflect_op(self.op)} {self.name}'
-        return f'{self.name} {self.op} "{self.value}"'
+            return f"{_quote(self.value)} {get_reflect_op(self.op)} {self.name}"
+        return f"{self.name} {self.op} {_quote(self.value)}"
 
     def __and__(self, other: t.Any) -> BaseMarker:
         from dep_logic.markers.multi import MultiMarker
@@ -245,7 +250,7 @@ class EqualityMarkerUnion(SingleMarker):
     values: OrderedSet[str]
 
     def __str__(self) -> str:
-        return " or ".join(f'{self.name} == "{value}"' for value in self.values)
+        return " or ".join(f"{self.name} == {_quote(value)}" for value in self.values)
 
     def replace(self, values: OrderedSet[str]) -> BaseMarker:
         if not values:
@@ -317,7 +322,7 @@ class InequalityMultiMarker(SingleMarker):
     values: OrderedSet[str]
 
     def __str__(self) -> str:
-        return " and ".join(f'{self.name} != "{value}"' for value in self.values)
+        return " and ".join(f"{self.name} != {_quote(value)}" for value in self.values)
 
     def replace(self, values: OrderedSet[str]) -> BaseMarker:
         if not values:
